@@ -1010,3 +1010,47 @@ Theorem C06_checkmultisig_error_iff_running : forall orc t i c s idx nk pks ns s
     ~ monotone_matching (fun sg k => pair_ok_spec orc (wire_tx t) (N.to_nat i) (in_sats inp) c script sg k = true) sigs pks)).
 Proof. exact checkmultisig_error_iff_running. Qed.
 Print Assumptions C06_checkmultisig_error_iff_running.
+
+(** The way the flags reach the engine (bscript/interpreter/options.go; model/ExecOptions.v): Execute applies its options in
+    order to a zero flag word; [WithFlags w], [WithForkID()], [WithAfterGenesis()] and [WithP2SH()] each OR their
+    flags into it, the other options leave it alone.  So an option list configures the execution with the UNION of the
+    words it names - every "subset of the signature-related flags in both eras" of the quantifier can be handed over in
+    any order and cut into options in any way, and the theorems above (stated on the flag word of the context) apply
+    to it.  Tied to the code on every run by the harness: each case is executed again under other option lists
+    denoting its flag word and must show the same verdict, step count and stack snapshots
+    (harness/cmd/c06/optionlists.go). *)
+From GoBT Require Import model.ExecOptions proofs.ExecOptionsProofs.
+From Coq Require Import Permutation.
+
+Theorem C06_flag_on_iff_some_option_names_it : forall oo b,
+  N.testbit (flags_of_options oo) b = existsb (fun o => N.testbit (option_word o) b) oo.
+Proof. exact flags_of_options_testbit. Qed.
+Print Assumptions C06_flag_on_iff_some_option_names_it.
+
+Theorem C06_later_option_keeps_earlier_flags : forall oo oo' b,
+  N.testbit (flags_of_options oo) b = true -> N.testbit (flags_of_options (oo ++ oo')) b = true.
+Proof. exact flags_of_options_monotone. Qed.
+Print Assumptions C06_later_option_keeps_earlier_flags.
+
+Theorem C06_option_order_irrelevant : forall oo oo', Permutation oo oo' -> flags_of_options oo = flags_of_options oo'.
+Proof. exact flags_of_options_perm. Qed.
+Print Assumptions C06_option_order_irrelevant.
+
+Theorem C06_option_list_is_its_union : forall so oo f i,
+  options_union oo = f -> ei_flags i = f ->
+  engine_execute_options so oo i = engine_execute so i.
+Proof.
+  intros so oo f i H Hi. rewrite (engine_execute_options_denote so oo f i H). now apply engine_execute_options_single.
+Qed.
+Print Assumptions C06_option_list_is_its_union.
+
+(** non-vacuity: FORKID as the named option followed by WithFlags(NULLFAIL), in both orders, and FORKID | NULLFAIL cut
+    into two words, all configure the word 0xa00; a later WithFlags(0) removes nothing *)
+Example C06_option_lists_example :
+  flags_of_options [OptNoFlags; OptForkID; OptFlags 512; OptNoFlags] = 2560%N /\
+  flags_of_options [OptFlags 512; OptNoFlags; OptForkID] = 2560%N /\
+  flags_of_options [OptFlags 2048; OptFlags 512] = 2560%N /\
+  flags_of_options [OptFlags 2560; OptFlags 0] = 2560%N /\
+  flags_of_options [OptAfterGenesis; OptP2SH; OptFlags 2560] = 18945%N /\
+  options_union [OptForkID; OptFlags 512] = 2560%N.
+Proof. vm_compute. repeat split; reflexivity. Qed.
